@@ -3,6 +3,7 @@ import Rip.Driver.C12
 import Rip.Driver.C15
 import Rip.Driver.C13
 import Rip.Driver.C14
+import Rip.Driver.C17
 
 /-- One case per line: `<property> <case tokens…>` → one observation line. -/
 def dispatch (line : String) : String :=
@@ -12,6 +13,10 @@ def dispatch (line : String) : String :=
   | p :: _ =>
     let rest := (line.drop (p.length + 1)).toString
     match p with
+    | "c17w" => Rip.Driver.C17.handleW rest
+    | "c17r" => Rip.Driver.C17.handleR rest
+    | "c17c" => Rip.Driver.C17.handleC rest
+    | "c17t" => Rip.Driver.C17.handleT rest
     | "c20" => Rip.Driver.C20.handle rest
     | "c12" => Rip.Driver.C12.handle rest
     | "c13" => Rip.Driver.C13.handle rest
